@@ -231,6 +231,8 @@ def run_case_inner(case, root: Path):
             c = None
             if key is not None:
                 if key not in comps: comps[key] = d.Compiler(mk_opts(step.get('opts')))
+                elif step.get('reassign'):      # the caller gives the reused Compiler new options
+                    comps[key].compile_options = mk_opts(step.get('opts'))
                 c = comps[key]
             try:
                 res.append(run_compile(step, sroot, c))
